@@ -404,19 +404,55 @@ class Composite(LexicalParent[Node], HasCreator, Node, ABC):
         return self._outputs_to_run_return()
 
     def _parse_remotely_executed_self(self, other_self):
+        # Live executors do not survive serialization; remember the local ones
+        local_executors = self._child_executors()
         # Un-parent existing nodes before ditching them
         for node in self:
             node._parent = None
             node._detached_parent_path = None
         other_self.running = False  # It's done now
+        remote_outputs = other_self.__dict__.get("_outputs")
         state = self._get_state_from_remote_other(other_self)
         self.__setstate__(state)
+        if "_outputs" not in state and remote_outputs is not None:
+            # We kept our own output channels; hand them the new values through the
+            # setter, so that an owning macro's outputs hear about them too
+            for label, channel in remote_outputs.items():
+                self.outputs[label].value = channel.value
+        self._restore_child_executors(local_executors)
 
     def _get_state_from_remote_other(self, other_self):
         state = other_self.__getstate__()
         state.pop("executor")  # Got overridden to None for __getstate__, so keep local
         state.pop("_parent")  # Got overridden to None for __getstate__, so keep local
+        state.pop("_detached_parent_path")  # Belongs with the parent, so keep local
+        for key in ("_inputs", "_outputs", "_signals"):
+            # Keep the local IO objects (where we own any): the connections of our
+            # neighbours, the value links of an owning macro, and the input lock all
+            # refer to these channels, and the channels refer to us as their owner
+            if self.__dict__.get(key) is not None:
+                state.pop(key, None)
         return state
+
+    def _child_executors(self) -> dict:
+        """The executor settings of all (nested) children, by label."""
+        return {
+            child.label: (
+                child.executor,
+                child._child_executors() if isinstance(child, Composite) else {},
+            )
+            for child in self
+        }
+
+    def _restore_child_executors(self, executors: dict) -> None:
+        for label, (executor, nested) in executors.items():
+            child = self.children.get(label)
+            if child is None:
+                continue
+            if child.executor is None:
+                child.executor = executor
+            if isinstance(child, Composite):
+                child._restore_child_executors(nested)
 
     def disconnect_run(self) -> list[tuple[InputSignal, OutputSignal]]:
         """
